@@ -9,7 +9,7 @@ CLAIM = dict(
     note="Trusted: as C02, plus the guarded reordering hook in mro.sort_types / MultiTypeMap.mro (OVLD_VERIF). Partial: calls the rule leaves ambiguous are covered by the correspondence only (the model is order-free there on static types, but that is not proved).",
     technique="Coq proof (corollaries of the C02 theorems under Permutation) + differential correspondence under imposed iteration orders, hash seeds and irrelevant methods", design="6 C06")
 
-THEOREMS = ["C06_order_free_when_decided", "C06_nomethod_order_free", "C06_irrelevant_when_decided",
+THEOREMS = ["C06_leaf_tied", "C06_order_free_when_decided", "C06_nomethod_order_free", "C06_irrelevant_when_decided",
             "C06_order_refuted_union", "C06_order_refuted_cycle", "C06_irrelevant_refuted"]
 ASSUMPTIONS = ["hash-seed runs use fresh subprocesses with PYTHONHASHSEED in a small set and a varying number of junk classes allocated first"]
 
@@ -183,6 +183,70 @@ def check(ctx, prog, stats, do_sub):
     stats["programs"] += 1
 
 
+def gen_value_prog(rng):
+    """value-typed programs whose outcome could depend on iteration order: families of tuple[...] types with one
+    ordered and one unrelated component, and families of overlapping multi-valued Literals"""
+    from . import dep_common as D
+    from ..world import enc_val
+    if rng.random() < 0.5:
+        spec = [{"kind": "plain", "bases": [], "meths": []}, {"kind": "plain", "bases": [0], "meths": []},
+                {"kind": "plain", "bases": [], "meths": []}, {"kind": "plain", "bases": [], "meths": []},
+                {"kind": "plain", "bases": [2, 3], "meths": []}]
+        w = World(spec)
+        A, B, X, Y, XY = w.user_ids()
+        comps1, comps2 = [A, B], [X, Y, XY]
+        defs = []
+        seen = set()
+        for i in range(rng.randint(2, 4)):
+            t = [11, [0, D.TUPLE], [0, rng.choice(comps1)], [0, rng.choice(comps2)]]
+            if rng.random() < 0.5:
+                t = [11, [0, D.TUPLE], t[3], t[2]]
+            if json.dumps(t) in seen:
+                continue
+            seen.add(json.dumps(t))
+            defs.append({"id": i, "pos": [t], "npos_req": 1, "kw": [], "prio": 0})
+        vals = [(w.instance(a), w.instance(b)) for a in (A, B) for b in (X, Y, XY)] + [(w.instance(b), w.instance(a)) for a in (A, B) for b in (X, Y, XY)]
+        calls = [{"vals": [enc_val(v, w)]} for v in vals]
+        return {"spec": spec, "defs": defs, "utab": {}, "calls": calls}
+    w = World([])
+    pool = [1, 2, 3, 4]
+    defs = []
+    seen = set()
+    for i in range(rng.randint(2, 5)):
+        vals = sorted(rng.sample(pool, rng.randint(1, 3)))
+        if tuple(vals) in seen:
+            continue
+        seen.add(tuple(vals))
+        defs.append({"id": i, "pos": [[8, [0, D.INT]] + [enc_val(v) for v in vals]], "npos_req": 1, "kw": [], "prio": 0})
+    return {"spec": [], "defs": defs, "utab": {}, "calls": [{"vals": [enc_val(v)]} for v in pool + [9]]}
+
+
+def check_value_orders(ctx, stats):
+    from . import dep_common as D
+    prog = gen_value_prog(ctx.rng)
+    if len(prog["defs"]) < 2:
+        return
+    base = None
+    for k in range(3):
+        order = list(range(len(prog["defs"])))
+        if k:
+            ctx.rng.shuffle(order)
+        p = dict(prog, defs=[prog["defs"][i] for i in order])
+        res, w, b = D.eval_dep_program(p)
+        impl = [r["impl"] for r in res]
+        mod = [r["model"] for r in res]
+        stats["evaluations"] += len(impl)
+        stats["value_orders"] += 1
+        if impl != mod:
+            ctx.violation(f"value-typed program under order {order}: implementation {impl} != model {mod}", dict(p, order=order), kind="correspondence")
+            return
+        if base is None:
+            base = impl
+        elif impl != base:
+            ctx.violation(f"outcome of a value-typed program depends on the registration / iteration order: {base} vs {impl} under {order}", dict(prog, order=order))
+            return
+
+
 def run(ctx):
     stats = collections.Counter()
     samples = []
@@ -193,6 +257,7 @@ def run(ctx):
         if not prog["calls"] or len(prog["defs"]) < 2:
             continue
         check(ctx, prog, stats, do_sub=(i % (4 if ctx.quick() else 10) == 0))
+        check_value_orders(ctx, stats)
         distinct.add(hash(json.dumps(prog)))
         if len(samples) < 2:
             samples.append({"defs": prog["defs"], "calls": prog["calls"][:2]})
@@ -200,7 +265,7 @@ def run(ctx):
             break
     return {"evaluations": stats["evaluations"], "distinct_nontrivial": len(distinct),
             "rule": "random programs with >= 2 methods of distinct signatures over 1-3 positions (35% with Union / Intersection annotations in either member order); each run under 3-6 imposed registration/iteration orders (guarded hook; model run with the same order), extended with 1-3 non-applicable methods, and (every 4th / 10th program) in 3 fresh interpreters with different PYTHONHASHSEED and address layout, hook off; distinct by content",
-            "samples": samples, "programs": stats["programs"], "imposed_orders": stats["orders"],
+            "samples": samples, "programs": stats["programs"], "imposed_orders": stats["orders"], "value_typed_program_orders": stats["value_orders"],
             "subprocess_runs": stats["subprocess_runs"], "order_dependent_known": stats["order_dependent"],
             "irrelevant_method_dependent_known": stats["irrelevant_dependent"], "seed_dependent_known": stats["seed_dependent"],
             "traces_validated_against_impl": stats["evaluations"]}
